@@ -161,6 +161,8 @@ class Stats:
         self.evaluations += 1
         for lab in res.labels:
             self.labels[lab] += 1
+        if res.extra:
+            self.excluded += res.extra.get("excluded", 0)
         if res.nontrivial is not None:
             self.nontrivial.add(
                 res.nontrivial
@@ -190,6 +192,11 @@ class Stats:
                 self.notes[k] += v
             else:
                 self.notes.setdefault(k, v)
+
+
+def known_keys(prop_id):
+    """Keys of the known (unrepaired) findings listed for this property."""
+    return {e["key"] for e in load_known(prop_id)}
 
 
 def load_known(prop_id):
@@ -391,8 +398,10 @@ def _main(prop, prop_mod, tier, seed, ns, t0):
             except Violation as v:
                 replayed += 1
                 stats.evaluations += 1
-                if rel in known_by_replay:
-                    e = known_by_replay[rel]
+                e = known_by_replay.get(rel)
+                if e is not None and e.get("clause") not in (None, v.clause):
+                    e = None  # fails differently from the recorded finding
+                if e is not None:
                     print(f"KNOWN-FINDING: property={prop.id} {e['what']}")
                     stats.known_hits[e["key"]] += 1
                 else:
